@@ -709,6 +709,7 @@ def use_after_helper_release(prog, chk, summ):
         for p in summ.paths[name]:
             cells = {}
             dangling = {}
+            released_rx = []
             for e in p.events:
                 if e.kind == 'store' and e.lv and e.value is not None:
                     cells[nl(e.lv)] = e.value.canon()
@@ -721,6 +722,14 @@ def use_after_helper_release(prog, chk, summ):
                             continue
                         ac = a.canon()
                         hit = [d for d in dangling if d == ac or (len(d) > 8 and d in ac)]
+                        if not hit:
+                            # the cell itself is read again after the helper released what it held (its content was havocked by the call)
+                            cell_txt = nl(re.sub(r'@\d+$', '', ac))
+                            for rx_, info_ in released_rx:
+                                if rx_.match(cell_txt):
+                                    dangling[ac] = info_ + (cell_txt,)
+                                    hit = [ac]
+                                    break
                         if hit:
                             key = (name, e.node['ln'], e.node.get('col'))
                             seen[key] = (False, e.name, hit[0], dangling[hit[0]])
@@ -730,6 +739,7 @@ def use_after_helper_release(prog, chk, summ):
                             continue
                         base = nl(e.args[k].canon())
                         rx = re.compile('^' + re.escape(base + suffix).replace(re.escape('[*]'), r'\[[^\]]*\]') + '$')
+                        released_rx.append((rx, (e.name, e.node['ln'])))
                         for cell, val in cells.items():
                             if rx.match(cell) and val not in ('0', 'NULL') and not re.match(r'^-?\d+$', val):
                                 dangling[val] = (e.name, e.node['ln'], cell)
